@@ -64,6 +64,11 @@ def catalogue(tier: str):
          [task('1/a')], {'stops': (), 'restarts': 0}, ('a',)),
         ('chain2-f2:stopcp-option-1', P1(shapes['chain2']), 2, [],
          {'options': {'stopcp': '1'}, 'stop': 1}, ()),
+        # a commanded stop point must replace the --stopcp option for good,
+        # also across a reload (which re-reads the start-up options)
+        ('prev-f3:stopcp-option-2:stop-1:reload', P1(shapes['prev']), 3, [],
+         {'options': {'stopcp': '2'}, 'stop': 2, 'stops': (), 'restarts': 0,
+          'op_sequence': [cp(1), ('reload_workflow', {})]}, ()),
     ]
     if tier == 'thorough':
         # the workflows above get a second restart and stop --now --now;
@@ -94,14 +99,22 @@ def stops_for(tier):
 
 def make_factory(spec, tier='quick'):
     ops_list = list(spec['ops'])
+    seq = spec.get('op_sequence')
+    if seq and any(o[0] == 'reload_workflow' for o in seq):
+        # the reload waits (inside one iteration) for preparing tasks to
+        # submit: let the pending fake jobs-submit commands complete
+        from ..sched.mon_c27 import install_reload_seam
+        install_reload_seam()
 
     def ops(w):
+        if seq:
+            return [seq[w.op_count]] if w.op_count < len(seq) else []
         return ops_list
 
     def factory():
         outcomes = {t: ['succeeded', 'failed'] for t in spec['fail_tasks']}
         return StopProfile(
-            spec, ops=ops, op_budget=1,
+            spec, ops=ops, op_budget=len(seq) if seq else 1,
             stops=spec.get('stops', stops_for(tier)),
             max_restarts=spec.get(
                 'restarts', 2 if tier == 'thorough' else 1),
